@@ -213,6 +213,19 @@ def run(out, tier, seed):
                       'ops': [['construct', '']] + [list(o) for o in w]})
     traces, inexact = fw.run_scenarios(descs)
     verdicts, stats = fw.judge_traces(out, traces, ['C08_'])
+    # "data ... problems that ampycloud refuses are signalled by AmpycloudError and by no other exception type": the refused inputs
+    # of Screening.tla (not a DataFrame at all, a missing column, an empty frame) through the check and through the construction
+    from . import c15 as _c15
+    refused = [f for f in _c15.export(tier) if f['obj'] != 'df' or f['missing'] != 'none' or not f['rows']]
+    refused = refused[:400 if tier == 'quick' else 4000]
+    rcases = fw.pool_map('harness.fnwork', 'screen_case', refused)
+    rjobs, rres = _c15.judge(rcases, nshards=4)
+    for j, res in zip(rjobs, rres):
+        for clause in ('C15_OnlyAmpycloudError', 'C15_ConstructionOnlyAmpycloudError'):
+            for k in res.get(clause, [])[:3]:
+                c = j['cases'][k - 1]
+                out.violation('C08_OnlyAmpycloudError', 'screening_case', {'frame': c['f'], 'clause': clause},
+                              f"refused input {json.dumps(c['f'])[:160]} res={c['res']} {c['exc']} {[q['exc'] for q in c['cons']][:2]}")
     kinds = {}
     sig = set()
     nexc = 0
@@ -229,10 +242,21 @@ def run(out, tier, seed):
                        'third-party numerics (scikit-learn, statsmodels) are exercised, not modelled']
     cov = {'evaluations': len(traces), 'distinct_nontrivial': len(sig),
            'rule': 'one evaluation = run() + three metar_msg() on one scene x parameter set; distinct = distinct (scene kind, messages, parameter keys touched)',
-           'kinds': kinds, 'exceptions_seen': nexc, 'inexact_skipped': len(inexact), 'traces_validated_against_impl': len(traces),
+           'kinds': kinds, 'exceptions_seen': nexc, 'refused_inputs_judged': len(rcases), 'inexact_skipped': len(inexact), 'traces_validated_against_impl': len(traces),
            'light_traces': sum(1 for t in traces if t.get('light')), 'checker_cmd': f'./check C08 --tier {tier}'}
     return out.finish('exploration', cov)
 
 
 def replay(path):
+    rp = json.load(open(path))
+    if rp.get('kind') == 'screening_case' or 'frame' in rp.get('payload', {}):
+        from . import c15 as _c15
+        cases = fw.pool_map('harness.fnwork', 'screen_case', [rp['payload']['frame']])
+        jobs, results = _c15.judge(cases, nshards=1)
+        bad = {k: v for k, v in results[0].items() if v and k in ('C15_OnlyAmpycloudError', 'C15_ConstructionOnlyAmpycloudError')}
+        print('case', cases[0]['res'], cases[0]['exc'], [q['exc'] for q in cases[0]['cons']], 'failing', bad)
+        if bad:
+            print(f'VIOLATION property=C08 replay={path}')
+            return 1
+        return 0
     return chunkprops.replay('C08', path)
